@@ -374,9 +374,37 @@ def run_case(cfg, want_fsm=False):
             return False
         return all_idle
 
+    fsm_seen = {}
+    extra_procs = []
+    if cfg.get("fsm_coverage"):
+        # coverage only (never part of a verdict): public fsm.state of every bank machine, the multiplexer and the refresher
+        ctrl = dut.controller
+        bms = [sm for (_n, sm) in ctrl._submodules if sm.__class__.__name__ == "BankMachine"]
+        fsms = [("bankmachine", bm.fsm) for bm in bms] + [("multiplexer", ctrl.multiplexer.fsm), ("refresher", ctrl.refresher.fsm)]
+
+        def fsm_monitor():
+            yield "passive"
+            sigs = [f.state for (_n, f) in fsms]
+            prev = [None] * len(fsms)
+            while True:
+                vals = yield sigs
+                for i, (nm, f) in enumerate(fsms):
+                    fsm_seen.setdefault(nm, {"states": set(), "transitions": set()})
+                    fsm_seen[nm]["states"].add(vals[i])
+                    if prev[i] is not None and prev[i] != vals[i]:
+                        fsm_seen[nm]["transitions"].add((prev[i], vals[i]))
+                    prev[i] = vals[i]
+                yield
+        extra_procs.append(fsm_monitor())
     t0 = time.time()
-    cycles, reason = run_sim(dut, [ref.process()] + [m.process() for m in masters], done_fn,
+    cycles, reason = run_sim(dut, [ref.process()] + [m.process() for m in masters] + extra_procs, done_fn,
                              max_cycles, wall_limit=cfg.get("wall_limit", 1500))
+    fsm_cov = {}
+    if cfg.get("fsm_coverage"):
+        for nm, f in [("bankmachine", bms[0].fsm), ("multiplexer", ctrl.multiplexer.fsm), ("refresher", ctrl.refresher.fsm)]:
+            dec = {v: (k if isinstance(k, str) else "delay%d" % v) for k, v in f.encoding.items()}   # delayed_enter states are anonymous
+            fsm_cov[nm] = dict(states=sorted(str(dec.get(x, x)) for x in fsm_seen.get(nm, {}).get("states", ())),
+                               transitions=sorted("%s>%s" % (dec.get(a, a), dec.get(b, b)) for a, b in fsm_seen.get(nm, {}).get("transitions", ())))
     tr = Trace()
     tr.cfg = cfg
     tr.phy, tr.geom, tr.timing, tr.module, tr.clk_freq = phy, geom, timing, module, clk_freq
@@ -395,6 +423,7 @@ def run_case(cfg, want_fsm=False):
     tr.nbanks_total = nbanks_total
     tr.rdphase, tr.wrphase = rdphase, wrphase
     tr.dut = dut
+    tr.fsm_cov = fsm_cov
     return tr
 
 
